@@ -6,7 +6,7 @@
    The per-protocol send->receive round trips are theorems about the packet models of Model.v
    (sender's datagram = what the node passes to sendto; receiver = node with one registered handler). *)
 From OlaBase Require Import Bytes.
-From C07 Require Import Gen Model ModelNet2 ModelStream ListLemmas RleProofs RleMore NetProofs NetProofs2 StreamProofs.
+From C07 Require Import Gen Model ModelNet2 ModelStream ModelMulti ListLemmas RleProofs RleMore NetProofs NetProofs2 StreamProofs MultiProofs.
 Local Open Scope N_scope.
 
 (* the constants the statements below spell out as literals *)
@@ -147,6 +147,21 @@ Theorem c07_e131_stream_roundtrip : forall cid name prio u ip fs1 fs2 old,
 Proof. intros. apply stream_roundtrip; assumption. Qed.
 Print Assumptions c07_e131_stream_roundtrip.
 
+(* E1.31, one sender streaming any number of universes (revision 3 framing): the sender keeps one
+   sequence number per universe (map universe -> next sequence, as E131Node::m_tx_universes), the
+   receiver tracks per universe.  For ANY interleaving `ops` of sends (universe 1..65534, frame of
+   1-512 slots) by one sender, what the handler of universe hu observes after every datagram is
+   exactly: for a send to hu, the handler ran and its buffer is that frame; for a send to another
+   universe, the handler did not run and its buffer is unchanged.  Hence every frame of every
+   universe is delivered, however many universes the node refreshes in between. *)
+Theorem c07_e131_multi_universe : forall cid name prio hu ip ops old,
+  prio <= 200 ->
+  Forall (fun op => 1 <= fst op /\ fst op <= 65534 /\ 1 <= len (snd op) /\ len (snd op) <= 512) ops ->
+  exists m' st', send_multi false cid name prio hu ip ops [] (fresh_rx old)
+                   = (expect_multi hu ops old, m', st').
+Proof. intros. apply multi_universe; assumption. Qed.
+Print Assumptions c07_e131_multi_universe.
+
 (* ---- non-vacuity and the pre-fix failures as concrete evaluations of the (fixed) model *)
 Definition ramp (n : nat) : list N := map (fun i => N.of_nat ((i * 7 + 3) mod 256)) (seq 0 n).
 (* 128 distinct slots: the unfixed encoder emitted the count byte 0x80 here *)
@@ -196,3 +211,12 @@ Example ex_stale_terminate :
     | None => False end
   | _ => False end.
 Proof. vm_compute. split; reflexivity. Qed.
+(* 256 universes refreshed round-robin: the second refresh of universe 1 is still delivered *)
+Example ex_multi_256 :
+  let ops := map (fun i => (N.of_nat (S (i mod 256)), [N.of_nat (i / 256); 7])) (seq 0 513) in
+  match send_multi false (repeat 1 16) [] 100 1 true ops [] (fresh_rx None) with
+  | (obs, _, _) => nth 256 obs (false, None) = (true, Some [1; 7]) /\
+                   nth 512 obs (false, None) = (true, Some [2; 7]) /\
+                   nth 300 obs (true, None) = (false, Some [1; 7])
+  end.
+Proof. vm_compute. repeat split; reflexivity. Qed.
